@@ -3,8 +3,9 @@
 (*   [op, inst, a, b, m, v, c, oa, ob, od, oc, r, p, cz]                                             *)
 (* is judged by Post / PredOK of AlgoOps (kinds "post", "pred-range", "canary"; "stable-doc" for an   *)
 (* algorithm whose own documentation promises stability).  Deviations are printed as DEV lines, not   *)
-(* fatal.  Independently the validator checks that the driver covered the input domain of            *)
-(* AlgoDom exactly: events of one (op, inst) group are contiguous, every input lies in the domain,    *)
+(* fatal ("hang": the driver's watchdog fired, the call did not return).  Independently the         *)
+(* validator checks that the driver covered the input domain of AlgoDom exactly: events              *)
+(* of one (op, inst) group are contiguous, every input lies in the domain,    *)
 (* keys strictly increase (no input twice) and the group has DomSize(op) events - otherwise a         *)
 (* "harness-*" deviation, which tools/vlib.py turns into a model failure, never a verdict.            *)
 EXTENDS AlgoDom, Json, IOUtils, TLC
@@ -26,6 +27,7 @@ Judge(ev) ==
     IF ev.op \in {"#end", "#replay"} THEN "ok"
     ELSE IF ev.op \notin AllOps THEN "harness-op"
     ELSE IF ~InDom(ev.op, ev) THEN "harness-domain"
+    ELSE IF "hang" \in DOMAIN ev THEN "hang"          \* the call did not return (driver watchdog)
     ELSE IF ~Post(ev.op, ev, Out(ev)) THEN "post"
     ELSE IF ~PredOK(ev, ev.p) THEN "pred-range"
     ELSE IF ev.cz # 1 THEN "canary"
@@ -40,7 +42,8 @@ GroupVerdict ==
     IF Replay THEN "ok"
     ELSE IF SameGroup
     THEN IF Tr[l].op = "#end" \/ KeyLess(KeyOf(Tr[l - 1]), KeyOf(Tr[l])) THEN "ok" ELSE "harness-order"
-    ELSE IF l > 1 /\ Tr[l - 1].op \in AllOps /\ l - gs # DomSize(Tr[l - 1].op) THEN "harness-coverage"
+    ELSE IF l > 1 /\ Tr[l - 1].op \in AllOps /\ "hang" \notin DOMAIN Tr[l - 1] /\ l - gs # DomSize(Tr[l - 1].op)
+         THEN "harness-coverage"               \* (a group that ended in a hang is abandoned, not miscounted)
     ELSE IF <<Tr[l].op, Tr[l].inst>> \in done THEN "harness-regroup"
     ELSE "ok"
 
